@@ -271,6 +271,7 @@ func init() {
 			{Name: "frequency-boundaries", Sc: withFunds(scLife(paramSet("0.1", "0.001"), []Template{tHuge, tMax, tBig, tOneTot}, AlphaOpts{CtxOps: []string{"pause", "start"}}, 5, 4, 2), 40, 5), Oracles: o, Mon: mf},
 		}
 		runs = append(runs, runsOf(lifeRuns(tier), o, mf)...)
+		runs = append(runs, modSelfStartRun(o, mf, d-1, b, m))
 		return runs
 	}})
 	register(&CheckSpec{Prop: "C11", Runs: func(tier string) []RunSpec {
@@ -301,6 +302,7 @@ func init() {
 				{Name: "t62rep", Consumer: "C1", Service: "a", Providers: []string{"P2"}, Cap: 5, Timeout: 1 << 62, Repeated: true, Freq: 0, Total: 2}}
 			runs = append(runs, RunSpec{Name: "gov-max-timeout-extremes", Sc: withFunds(scLife(paramSet("0.1", "0.001"), tm, AlphaOpts{RespKinds: []string{"ok"}, CtxOps: []string{"pause", "start"}, ParamChanges: []ParamSet{g, g62}}, 6, 4, 3), 40, 5), Oracles: o})
 		}
+		runs = append(runs, modSelfStartRun(o, MonFlags{}, d-1, b, m))
 		// the owning module starts a context again from inside the "paused: insufficient balances" state callback
 		runs = append(runs, RunSpec{Name: "mod-restart-in-callback", Sc: scModRestart(defaultParams(), []Template{tMod1, tModPoor},
 			AlphaOpts{RespKinds: []string{"ok"}, ModOps: []string{"mpause", "mstart"}}, d-1, b-1, m), Oracles: o, Mon: MonFlags{Restart: true}})
@@ -315,6 +317,8 @@ func init() {
 			{Name: "mod-callbacks-oneshot+cap", Sc: scMod(defaultParams(), []Template{tModOne, tModCap}, modO, d, b, m+1), Oracles: o, Mon: MonFlags{CB: true}},
 		}
 		runs = append(runs, runsOf(lifeRuns(tier), o, MonFlags{CB: true})...)
+		// the owning module starts a paused context again from inside the response callback of its failed batch
+		runs = append(runs, modSelfStartRun(o, MonFlags{CB: true}, d, b+1, m))
 		return runs
 	}})
 	register(&CheckSpec{Prop: "C13", Runs: func(tier string) []RunSpec {
